@@ -101,34 +101,47 @@ def run(s):
                   "encoder contracts (C19)", "DataAdapter base-class contract (C01)"}
 
 
+FUNCTION_OF_LABEL = {"Accuracy": "accuracy", "Balanced Accuracy": "balanced_accuracy", "Top 3 Accuracy": "top_3_accuracy",
+                     "Mean Average Precision": "mean_average_precision", "Average Precision": "average_precision",
+                     "Jaccard Index": "jaccard", "True Class Probability": "true_class_probability"}
+
+
 def tables(s, v):
+    """the (term, function) tables, EVALUATED from the module sources (whatever the import style or layout of the literal)"""
+    from pyvc.symex import Exec
+    from pyvc.values import Tup, Lst, Obj, Fn, Str
+    import ast as _ast
     terms_mod = v.repo.module("soundevent.terms.metrics")
+    ext = Exec(v.repo, terms_mod, v.handlers, v.inline, "R", False)
     names, labels = {}, {}
     for attr, node in terms_mod.assigns.items():
-        if isinstance(node, ast.Call) and getattr(node.func, "id", "") == "Term":
-            kw = {k.arg: k.value.value for k in node.keywords if isinstance(k.value, ast.Constant)}
-            names[attr], labels[attr] = kw.get("name"), kw.get("label")
-    s.table("metric-terms-have-distinct-names", len(set(names.values())) == len(names) and None not in names.values(), str(names))
+        if isinstance(node, _ast.Call):
+            val = ext.global_name(attr, None)
+            if isinstance(val, Obj) and val.cls.endswith("terms.Term"):
+                nm, lb = val.fields.get("name"), val.fields.get("label")
+                names[attr] = nm.c if isinstance(nm, Str) and nm.concrete else None
+                labels[attr] = lb.c if isinstance(lb, Str) and lb.concrete else None
+    s.table("metric-terms-have-distinct-names", len(names) >= 7 and len(set(names.values())) == len(names) and None not in names.values(), str(names))
     s.table("metric-terms-have-distinct-labels", len(set(labels.values())) == len(labels) and None not in labels.values(), str(labels))
     for t in TASKS:
         m = v.repo.module("soundevent.evaluation.tasks." + t)
-        t_alias = next((k for k, q in m.imports.items() if q == "soundevent.terms.metrics"), None)
-        f_alias = next((k for k, q in m.imports.items() if q == "soundevent.evaluation.metrics"), None)
-        s.table(f"{t}-imports-terms-and-metrics", t_alias is not None and f_alias is not None, f"{t_alias} {f_alias}")
+        ex = Exec(v.repo, m, v.handlers, v.inline, "R", False)
         for tb in TABLES:
-            node = m.assigns.get(tb)
-            if node is None:
+            if tb not in m.assigns:
                 continue
-            rows = []
-            ok_shape = isinstance(node, ast.Tuple)
-            for r in (node.elts if ok_shape else []):
-                if (isinstance(r, ast.Tuple) and len(r.elts) == 2 and all(isinstance(e, ast.Attribute) and isinstance(e.value, ast.Name) for e in r.elts)
-                        and r.elts[0].value.id == t_alias and r.elts[1].value.id == f_alias):
-                    rows.append((r.elts[0].attr, r.elts[1].attr))
+            val = ex.global_name(tb, None)
+            rows_v = val.items if isinstance(val, (Tup, Lst)) and (isinstance(val, Tup) or val.concrete) else None
+            rows, ok_shape = [], rows_v is not None
+            for r in rows_v or []:
+                if (isinstance(r, Tup) and len(r.items) == 2 and isinstance(r.items[0], Obj) and r.items[0].cls.endswith("terms.Term")
+                        and isinstance(r.items[1], Fn) and isinstance(r.items[1].data, str)):
+                    lb = r.items[0].fields.get("label")
+                    rows.append((lb.c if isinstance(lb, Str) and lb.concrete else None, r.items[1].data))
                 else:
                     ok_shape = False
-            s.table(f"{t}.{tb}-is-a-literal-table-of-(term,function)-rows", ok_shape, ast.unparse(node)[:200])
+            s.table(f"{t}.{tb}-is-a-table-of-(term,function)-rows", ok_shape, str(rows)[:200])
             s.table(f"{t}.{tb}-terms-pairwise-distinct", len({a for a, _ in rows}) == len(rows), str(rows))
             for a, b in rows:
-                s.table(f"{t}.{tb}-{a}-is-computed-by-its-own-function", FUNCTION_OF_TERM.get(a) == b and a in names, f"{a} -> {b}")
+                want = FUNCTION_OF_LABEL.get(a)
+                s.table(f"{t}.{tb}-{a}-is-computed-by-its-own-function", want is not None and b == "soundevent.evaluation.metrics." + want, f"{a} -> {b}")
     return []
